@@ -5,13 +5,14 @@
     matcher assembly, the radix tree's Add / findNode / Find, FindRule, Execute's
     encoded-slash switch and capture decoding).  Spec.v is the documentation:
     path expressions, `ALL` / `!M` method lists, any-host, path_params on decoded
-    segments, decoded captures.  Guards name the open findings C03-F1, F4, F8;
+    segments, decoded captures.  The only open finding is C03-F8 (guard [guard_F8]);
     each has a `_refuted` witness.  C03-F2, F3, F5, F6, F7 were repaired by `fix:` commits
     (88da16a, 20f92b3, 16cf34b, 72ba5d4, a779db8): the model is parametric in them ([fx2 fx3 fx5
     fx6 fx7], [true] = the tree as it is now) and the pinned behaviour is kept as `_pinned_refuted`.
-    [fx1], [fx4] are the candidate repairs fixes/C03-F1.diff, fixes/C03-F4.diff (not in /repo:
-    [false] = the tree as it is); the theorems hold for both values, the guards of C03-F1 and
-    C03-F4 being false by definition when the flag is [true].
+    C03-F1 and C03-F4 are repaired as well (6793b33, 22bae5e: [fx1], [fx4]).  The slash-preserving
+    decoder has three variants [fx7 : dec]: [D0] pinned, [D7] after a779db8 (the tree as it is),
+    [D8] with the candidate repair fixes/C03-F8.diff.  The main theorems are stated for every
+    value of the flags they depend on; a guard is false by definition for the repaired variant.
     What is left of the guard of C03-F6 is the request view without RawPath, which no entry
     point produces for a non-empty path any more (ae6db4f). *)
 From HV Require Import Base.Prelude C03.Model C03.Spec C03.Proofs C03.ProofsTree.
@@ -39,7 +40,7 @@ Print Assumptions C03_method_list_rejected.
 (** C03-F4: a non-empty list denoting no method is turned into "all methods" *)
 Theorem C03_F4_pinned_refuted :
   exists r cm q, only_matcher false r = Some cm /\ guard_F4 false (rl_methods r) = true /\
-    route_matches false true true eng_none cm q [] [] = MYes /\ spec_route_ok eng_none r [] q [] [] = false.
+    route_matches false true D7 eng_none cm q [] [] = MYes /\ spec_route_ok eng_none r [] q [] [] = false.
 Proof. exact F4_refuted. Qed.
 Print Assumptions C03_F4_pinned_refuted.
 
@@ -51,16 +52,16 @@ Print Assumptions C03_hosts_any.
 
 Theorem C03_F1_pinned_refuted :
   exists r cm q, only_matcher false r = Some cm /\ guard_F1 false eng_none (rl_hosts r) q = true /\
-    route_matches false true true eng_none cm q [] [] = MNo /\ spec_route_ok eng_none r [] q [] [] = true.
+    route_matches false true D7 eng_none cm q [] [] = MNo /\ spec_route_ok eng_none r [] q [] [] = true.
 Proof. exact F1_refuted. Qed.
 Print Assumptions C03_F1_pinned_refuted.
 
 (** the decoding of a captured value per encoded-slash setting: `on` = percent-decoded;
     `off` / `no_decode` = percent-decoded with encoded slashes left as they are *)
-Theorem C03_decode_per_setting : forall sl v d,
+Theorem C03_decode_per_setting : forall fx7 sl v d,
   spec_decode (keep_slash_of sl) v = Some d ->
-  (sl = SOn \/ guard_F8_val d = false) ->
-  unescape true v sl = d.
+  (sl = SOn \/ (guard_F7_val fx7 v = false /\ guard_F8_val fx7 d = false)) ->
+  unescape fx7 v sl = d.
 Proof. exact decode_per_setting. Qed.
 Print Assumptions C03_decode_per_setting.
 
@@ -68,7 +69,7 @@ Print Assumptions C03_decode_per_setting.
     it is asked with, exactly as the documented conditions say — scheme (when
     set), method list, any host, every path_params expression on the decoded value
     of the named wildcard — and never panics; for all rules, engines, requests *)
-Theorem C03_route_matches_iff : forall fx1 fx4 eng r cr,
+Theorem C03_route_matches_iff : forall fx1 fx4 fx7 eng r cr,
   create_rule fx4 r = Ok cr ->
   forall path cm, In (path, cm) (cr_routes cr) ->
   exists rt, In rt (rl_routes r) /\ path = rt_path rt /\
@@ -77,8 +78,9 @@ Theorem C03_route_matches_iff : forall fx1 fx4 eng r cr,
       guard_F1 fx1 eng (rl_hosts r) q = false ->
       guard_F4 fx4 (rl_methods r) = false ->
       on_params (guard_F6 true) (rl_slash r) q keys vals (rt_params rt) = false ->
-      on_params guard_F8 (rl_slash r) q keys vals (rt_params rt) = false ->
-      route_matches fx1 true true eng cm q keys vals =
+      on_params (guard_F7 fx7) (rl_slash r) q keys vals (rt_params rt) = false ->
+      on_params (guard_F8 fx7) (rl_slash r) q keys vals (rt_params rt) = false ->
+      route_matches fx1 true fx7 eng cm q keys vals =
       of_bool (spec_scheme (rl_scheme r) q && spec_method (rl_methods r) (q_method q) &&
                spec_hosts eng (rl_hosts r) q &&
                forallb (spec_param eng (rl_slash r) q keys vals) (rt_params rt)).
@@ -90,18 +92,20 @@ Theorem C03_F6_pinned_refuted :
   exists r ps cm q keys vals, only_matcher false r = Some cm /\ cm_params cm = ps /\
     length keys = length vals /\ Forall valid_enc vals /\ Forall (from_path q) vals /\
     on_params (guard_F6 false) (rl_slash r) q keys vals ps = true /\
-    route_matches false false true eng_none cm q keys vals = MNo /\ spec_route_ok eng_none r ps q keys vals = true.
+    route_matches false false D7 eng_none cm q keys vals = MNo /\ spec_route_ok eng_none r ps q keys vals = true.
 Proof. exact F6_pinned_refuted. Qed.
 Print Assumptions C03_F6_pinned_refuted.
 
 (** Execute rejects exactly the requests with an encoded slash under `off`; otherwise
     the captures are the decoded segments under the wildcard names, unnamed
     wildcards ("*") not exposed *)
-Theorem C03_captures_exact : forall sl q names segs caps rej,
-  execute true sl q (map_of (named_pairs names segs)) = (caps, rej) ->
+Theorem C03_captures_exact : forall fx7 sl q names segs caps rej,
+  req_guard_F7 fx7 sl q = false ->
+  execute fx7 sl q (map_of (named_pairs names segs)) = (caps, rej) ->
   rej = spec_rejected sl q /\
   (rej = false -> forall sc, spec_captures sl names segs = Some sc ->
-     caps_guard_F8 sl (named_pairs names segs) = false -> caps = sc).
+     caps_guard_F7 fx7 sl (named_pairs names segs) = false ->
+     caps_guard_F8 fx7 sl (named_pairs names segs) = false -> caps = sc).
 Proof. exact captures_exact. Qed.
 Print Assumptions C03_captures_exact.
 
@@ -114,8 +118,8 @@ Print Assumptions C03_unnamed_not_exposed.
     decoded it under `off` / `no_decode` *)
 Theorem C03_F7_pinned_refuted :
   exists sl q names segs caps sc,
-    req_guard_F7 false sl q = true /\
-    execute false sl q (map_of (named_pairs names segs)) = (caps, false) /\
+    req_guard_F7 D0 sl q = true /\
+    execute D0 sl q (map_of (named_pairs names segs)) = (caps, false) /\
     spec_rejected sl q = true /\
     spec_captures sl names segs = Some sc /\ caps <> sc.
 Proof. exact F7_pinned_refuted. Qed.
@@ -123,8 +127,8 @@ Print Assumptions C03_F7_pinned_refuted.
 
 Theorem C03_F8_refuted :
   exists sl q names segs caps sc,
-    caps_guard_F8 sl (named_pairs names segs) = true /\
-    execute true sl q (map_of (named_pairs names segs)) = (caps, false) /\
+    caps_guard_F8 D7 sl (named_pairs names segs) = true /\
+    execute D7 sl q (map_of (named_pairs names segs)) = (caps, false) /\
     spec_rejected sl q = false /\
     spec_captures sl names segs = Some sc /\ caps <> sc.
 Proof. exact F8_refuted. Qed.
@@ -133,7 +137,7 @@ Print Assumptions C03_F8_refuted.
 (** the tree-side findings, on loaded rule sets *)
 Theorem C03_F2_pinned_refuted :
   exists ds q k s segs,
-    served false true true true true ds q = Some (ONone, [k]) /\
+    served false true true true D7 ds q = Some (ONone, [k]) /\
     nth_error (flat_routes 0 ds) (k_vid k) = Some s /\ guard_F2_params s = true /\
     sr_segs s q = Some segs /\
     ~ call_sees_route (flat_routes 0 ds) q k /\
@@ -143,7 +147,7 @@ Print Assumptions C03_F2_pinned_refuted.
 
 Theorem C03_F3_pinned_refuted :
   exists ds q k s segs caps sc,
-    served true false true true true ds q = Some (ORule 0 caps false, [k]) /\
+    served true false true true D7 ds q = Some (ORule 0 caps false, [k]) /\
     nth_error (flat_routes 0 ds) (k_vid k) = Some s /\ sr_rule s = 0 /\
     guard_F3 (flat_routes 0 ds) s = true /\
     sr_segs s q = Some segs /\
@@ -154,8 +158,8 @@ Print Assumptions C03_F3_pinned_refuted.
 
 Theorem C03_F5_pinned_refuted :
   exists ds q k s segs caps sc es t,
-    load true false ds = Loaded es t /\ guard_F5 false true true true eng_none es t q = true /\
-    served true true false true true ds q = Some (ORule 1 caps false, [k]) /\
+    load true false ds = Loaded es t /\ guard_F5 false true true D7 eng_none es t q = true /\
+    served true true false true D7 ds q = Some (ORule 1 caps false, [k]) /\
     nth_error (flat_routes 0 ds) (k_vid k) = Some s /\
     sr_segs s q = Some segs /\
     ~ call_sees_route (flat_routes 0 ds) q k /\
@@ -166,8 +170,8 @@ Print Assumptions C03_F5_pinned_refuted.
 
 Theorem C03_F5_pinned_panic_refuted :
   exists ds q k es t,
-    load true false ds = Loaded es t /\ guard_F5 false true true true eng_none es t q = true /\
-    served true true false true true ds q = Some (OPanic, [k]) /\ k_res k = MPanic.
+    load true false ds = Loaded es t /\ guard_F5 false true true D7 eng_none es t q = true /\
+    served true true false true D7 ds q = Some (OPanic, [k]) /\ k_res k = MPanic.
 Proof. exact F5_pinned_panic_refuted. Qed.
 Print Assumptions C03_F5_pinned_panic_refuted.
 
@@ -179,7 +183,7 @@ Theorem C03_nonvacuous :
     Forall (from_path q) vals /\
     guard_F1 false eng_none (rl_hosts r) q = false /\ guard_F4 false (rl_methods r) = false /\
     on_params (guard_F6 true) (rl_slash r) q keys vals (cm_params cm) = false /\
-    on_params guard_F8 (rl_slash r) q keys vals (cm_params cm) = false /\
-    route_matches false true true eng_none cm q keys vals = MYes.
+    on_params (guard_F8 D7) (rl_slash r) q keys vals (cm_params cm) = false /\
+    route_matches false true D7 eng_none cm q keys vals = MYes.
 Proof. exact route_semantics_nonvacuous. Qed.
 Print Assumptions C03_nonvacuous.
